@@ -87,6 +87,23 @@ class GramEval:
         self._paths[key] = paths
         return paths
 
+    def prod_paths_with(self, nt, k, override):
+        """like prod_paths but with the values of some RHS symbols replaced: override = {symbol index: Val}"""
+        p = self.G.productions(nt)[k]
+        syms = p["symbols"]
+        vals = []
+        for i, s in enumerate(syms):
+            if i in override:
+                vals.append(override[i])
+            elif s["t"] == "term":
+                vals.append(self.term_value(s["name"]))
+            else:
+                vals.append(self.nt_value(s["name"]))
+        try:
+            return self.eval_action(p["action"], vals, 0, [Path()], syms)
+        except Overflow:
+            return []
+
     def eval_action(self, idx, vals, base_pos, paths, syms):
         """evaluate action idx on `vals` (values of the symbols it consumes), continuing each of `paths`"""
         a = self.actions[idx]
